@@ -769,6 +769,10 @@ pub fn gen_c07(tier: Tier, run: u64, rng: &mut Rng) -> BuilderCase {
         c.hint = h;
         c.hint_kind = k;
         c.val_kind = rng.pick(&["identity", "random"]).to_string();
+        // all three bucket/shard relations of the store under real sharding, online and on the simulated disk:
+        // without a hint the bucket count is the knob (0 bits => buckets are split into shards)
+        c.offline = rng.chance(1, 2);
+        c.log2_buckets = if c.hint.is_none() { Some(*rng.pick(&[0u32, 0, 1, 2, 8])) } else { None };
     } else if run > 130 && run % 29 == 11 {
         // 8 and 16 real shards
         c.combo = rng.pick(&["f/usize/bfv-usize/s2/shards", "f/usize/box-usize/s2/shards"]).to_string();
